@@ -36,7 +36,7 @@ def install_owner_hooks(cx):
     cx.repo_call_hook = repo_call
 
 
-def make_tlo_self(cx):
+def make_tlo_self(cx, length_invariant=True):
     trait = z3.Const("trait", Val)
     owner_alive = z3.Bool("owner_alive")
     owner = z3.Const("owner", Val)
@@ -50,8 +50,9 @@ def make_tlo_self(cx):
     n = z3.Length(s0)
     # representation invariant (C04) on entry: the length is within the trait's bounds, 0 <= minlen <= maxlen
     st = st.assume(owner != cx.const("None").t)
-    st = st.assume(trait != cx.const("None").t, 0 <= MINLEN(trait), MINLEN(trait) <= MAXLEN(trait),
-                   MINLEN(trait) <= n, n <= MAXLEN(trait))
+    st = st.assume(trait != cx.const("None").t, 0 <= MINLEN(trait), MINLEN(trait) <= MAXLEN(trait))
+    if length_invariant:
+        st = st.assume(MINLEN(trait) <= n, n <= MAXLEN(trait))
     return st, self_ref, s0, V, trait
 
 
@@ -128,14 +129,17 @@ class TLOValidateLength(Contract):
         install_owner_hooks(cx)
 
     def setup(self, cx, I, ov):
-        st, self_ref, s0, V, trait = make_tlo_self(cx)
+        # NO assumption on the current length: __init__ asks before the list is populated (current length 0, possibly below
+        # minlen), __setstate__ restores arbitrary contents -- the answer may depend on the NEW length and the bounds only
+        st, self_ref, s0, V, trait = make_tlo_self(cx, length_invariant=False)
         h = st.heap[self_ref.oid]
         if ov == "trait-none":
             st = st.put(self_ref.oid, h.with_field("trait", NONE))
         elif ov == "trait-attribute-missing":
             st = st.put(self_ref.oid, h.without_field("trait"))
         n = z3.Int("new_length")
-        return st, [self_ref, VInt(n)], {}, dict(n=n, trait=trait, self_ref=self_ref, witness=dict(new_length=n))
+        return st, [self_ref, VInt(n)], {}, dict(n=n, trait=trait, self_ref=self_ref, witness=dict(new_length=n, current_length=z3.Length(s0)),
+                                                  concretise=lambda m: dict(harness="containers", family="list_length"))
 
     def post(self, cx, I, ov, info, kind, payload, st):
         n, trait = info["n"], info["trait"]
